@@ -679,6 +679,52 @@ end Flatten
 section Refinement
 variable {I : FieldImpl} {p : ℕ} [Fact p.Prime] {ok : ℕ → Prop} {val : ℕ → ZMod p}
 
+theorem quad_raw_arith (H : ImplementsArith I p ok val) (mk : ∀ {F : Type}, Gen.FOps F → Ext2 F)
+    (hmk : ∀ {F G : Type} {O : Gen.FOps F} {O' : Gen.FOps G} {h : F → G}, FHom O O' h → Ext2Hom (mk O) (mk O') h)
+    (a b : Quad ℕ) (c : ℕ) (ha : okQ ok a) (hb : okQ ok b) (hc : ok c) :
+    (okQ ok (Quad.mul (mk (BOps.ofImpl I).toFOps) a b) ∧
+      Quad.map val (Quad.mul (mk (BOps.ofImpl I).toFOps) a b) =
+        Quad.mul (mk (ringOps (ZMod p))) (Quad.map val a) (Quad.map val b)) ∧
+    (okQ ok (Quad.square (mk (BOps.ofImpl I).toFOps) a) ∧
+      Quad.map val (Quad.square (mk (BOps.ofImpl I).toFOps) a) =
+        Quad.square (mk (ringOps (ZMod p))) (Quad.map val a)) ∧
+    (okQ ok (Quad.mulBase (mk (BOps.ofImpl I).toFOps) a c) ∧
+      Quad.map val (Quad.mulBase (mk (BOps.ofImpl I).toFOps) a c) =
+        Quad.mulBase (mk (ringOps (ZMod p))) (Quad.map val a) (val c)) ∧
+    (okQ ok (Quad.conjugate (mk (BOps.ofImpl I).toFOps) a) ∧
+      Quad.map val (Quad.conjugate (mk (BOps.ofImpl I).toFOps) a) =
+        Quad.conjugate (mk (ringOps (ZMod p))) (Quad.map val a)) ∧
+    (okQ ok (Quad.add (BOps.ofImpl I) a b) ∧
+      Quad.map val (Quad.add (BOps.ofImpl I) a b) = Quad.add (fieldBOps p) (Quad.map val a) (Quad.map val b)) ∧
+    (okQ ok (Quad.sub (BOps.ofImpl I) a b) ∧
+      Quad.map val (Quad.sub (BOps.ofImpl I) a b) = Quad.sub (fieldBOps p) (Quad.map val a) (Quad.map val b)) ∧
+    (okQ ok (Quad.neg (BOps.ofImpl I) a) ∧
+      Quad.map val (Quad.neg (BOps.ofImpl I) a) = Quad.neg (fieldBOps p) (Quad.map val a)) ∧
+    (okQ ok (Quad.double (BOps.ofImpl I) a) ∧
+      Quad.map val (Quad.double (BOps.ofImpl I) a) = Quad.double (fieldBOps p) (Quad.map val a)) := by
+  have HR := subOps_raw_ops H
+  have HF := subOps_field_ops H
+  have XR : Ext2Hom (mk (subOps H).toFOps) (mk (BOps.ofImpl I).toFOps) Subtype.val := hmk HR
+  have XF : Ext2Hom (mk (subOps H).toFOps) (mk (ringOps (ZMod p))) (fun a : {x : ℕ // ok x} => val a.1) :=
+    hmk HF
+  refine ⟨?_, ?_, ?_, ?_, ?_, ?_, ?_, ?_⟩
+  · exact quad_lift1 (opS := fun x => Quad.mul (mk (subOps H).toFOps) x (liftQ b hb))
+      (opR := fun x => Quad.mul _ x b) (opF := fun x => Quad.mul _ x (Quad.map val b))
+      (fun x => Quad.map_mul XR x _) (fun x => Quad.map_mul XF x _) a ha
+  · exact quad_lift1 (fun x => Quad.map_square XR x) (fun x => Quad.map_square XF x) a ha
+  · exact quad_lift1 (opS := fun x => Quad.mulBase (mk (subOps H).toFOps) x ⟨c, hc⟩)
+      (opR := fun x => Quad.mulBase _ x c) (opF := fun x => Quad.mulBase _ x (val c))
+      (fun x => Quad.map_mulBase XR x _) (fun x => Quad.map_mulBase XF x _) a ha
+  · exact quad_lift1 (fun x => Quad.map_conjugate XR x) (fun x => Quad.map_conjugate XF x) a ha
+  · exact quad_lift1 (opS := fun x => Quad.add (subOps H) x (liftQ b hb))
+      (opR := fun x => Quad.add _ x b) (opF := fun x => Quad.add _ x (Quad.map val b))
+      (fun x => Quad.map_add HR x _) (fun x => Quad.map_add HF x _) a ha
+  · exact quad_lift1 (opS := fun x => Quad.sub (subOps H) x (liftQ b hb))
+      (opR := fun x => Quad.sub _ x b) (opF := fun x => Quad.sub _ x (Quad.map val b))
+      (fun x => Quad.map_sub HR x _) (fun x => Quad.map_sub HF x _) a ha
+  · exact quad_lift1 (fun x => Quad.map_neg HR x) (fun x => Quad.map_neg HF x) a ha
+  · exact quad_lift1 (fun x => Quad.map_double HR x) (fun x => Quad.map_double HF x) a ha
+
 theorem quad_raw_refines (H : Implements I p ok val) (mk : ∀ {F : Type}, Gen.FOps F → Ext2 F)
     (hmk : ∀ {F G : Type} {O : Gen.FOps F} {O' : Gen.FOps G} {h : F → G}, FHom O O' h → Ext2Hom (mk O) (mk O') h)
     (a b : Quad ℕ) (c : ℕ) (ha : okQ ok a) (hb : okQ ok b) (hc : ok c) :
@@ -705,32 +751,58 @@ theorem quad_raw_refines (H : Implements I p ok val) (mk : ∀ {F : Type}, Gen.F
     ((∀ y, Quad.inv (BOps.ofImpl I) (mk (BOps.ofImpl I).toFOps) a = .ok y → okQ ok y) ∧
       Res.map (Quad.map val) (Quad.inv (BOps.ofImpl I) (mk (BOps.ofImpl I).toFOps) a) =
         Quad.inv (fieldBOps p) (mk (ringOps (ZMod p))) (Quad.map val a)) := by
-  have HR := subOps_raw H
-  have HF := subOps_field H
-  have XR : Ext2Hom (mk (subOps H).toFOps) (mk (BOps.ofImpl I).toFOps) Subtype.val := hmk HR.ops
-  have XF : Ext2Hom (mk (subOps H).toFOps) (mk (ringOps (ZMod p))) (fun a : {x : ℕ // ok x} => val a.1) :=
-    hmk HF.ops
-  refine ⟨?_, ?_, ?_, ?_, ?_, ?_, ?_, ?_, ?_⟩
-  · exact quad_lift1 (opS := fun x => Quad.mul (mk (subOps H).toFOps) x (liftQ b hb))
-      (opR := fun x => Quad.mul _ x b) (opF := fun x => Quad.mul _ x (Quad.map val b))
-      (fun x => Quad.map_mul XR x _) (fun x => Quad.map_mul XF x _) a ha
-  · exact quad_lift1 (fun x => Quad.map_square XR x) (fun x => Quad.map_square XF x) a ha
-  · exact quad_lift1 (opS := fun x => Quad.mulBase (mk (subOps H).toFOps) x ⟨c, hc⟩)
-      (opR := fun x => Quad.mulBase _ x c) (opF := fun x => Quad.mulBase _ x (val c))
-      (fun x => Quad.map_mulBase XR x _) (fun x => Quad.map_mulBase XF x _) a ha
-  · exact quad_lift1 (fun x => Quad.map_conjugate XR x) (fun x => Quad.map_conjugate XF x) a ha
-  · exact quad_lift1 (opS := fun x => Quad.add (subOps H) x (liftQ b hb))
-      (opR := fun x => Quad.add _ x b) (opF := fun x => Quad.add _ x (Quad.map val b))
-      (fun x => Quad.map_add HR x _) (fun x => Quad.map_add HF x _) a ha
-  · exact quad_lift1 (opS := fun x => Quad.sub (subOps H) x (liftQ b hb))
-      (opR := fun x => Quad.sub _ x b) (opF := fun x => Quad.sub _ x (Quad.map val b))
-      (fun x => Quad.map_sub HR x _) (fun x => Quad.map_sub HF x _) a ha
-  · exact quad_lift1 (fun x => Quad.map_neg HR x) (fun x => Quad.map_neg HF x) a ha
-  · exact quad_lift1 (fun x => Quad.map_double HR x) (fun x => Quad.map_double HF x) a ha
-  · exact quad_lift_inv H XR XF a ha
+  obtain ⟨h1, h2, h3, h4, h5, h6, h7, h8⟩ := quad_raw_arith H.toImplementsArith mk hmk a b c ha hb hc
+  exact ⟨h1, h2, h3, h4, h5, h6, h7, h8,
+    quad_lift_inv H (hmk (subOps_raw_ops H.toImplementsArith)) (hmk (subOps_field_ops H.toImplementsArith)) a ha⟩
 
 example {F G : Type} {O : Gen.FOps F} {O' : Gen.FOps G} {h : F → G} (H : FHom O O' h) :
     Ext2Hom (Ext2.f64 O) (Ext2.f64 O') h := f64_ext2_hom H
+
+theorem cube_raw_arith (H : ImplementsArith I p ok val) (mk : ∀ {F : Type}, Gen.FOps F → Ext3 F)
+    (hmk : ∀ {F G : Type} {O : Gen.FOps F} {O' : Gen.FOps G} {h : F → G}, FHom O O' h → Ext3Hom (mk O) (mk O') h)
+    (a b : Cube ℕ) (c : ℕ) (ha : okC ok a) (hb : okC ok b) (hc : ok c) :
+    (okC ok (Cube.mul (mk (BOps.ofImpl I).toFOps) a b) ∧
+      Cube.map val (Cube.mul (mk (BOps.ofImpl I).toFOps) a b) =
+        Cube.mul (mk (ringOps (ZMod p))) (Cube.map val a) (Cube.map val b)) ∧
+    (okC ok (Cube.square (mk (BOps.ofImpl I).toFOps) a) ∧
+      Cube.map val (Cube.square (mk (BOps.ofImpl I).toFOps) a) =
+        Cube.square (mk (ringOps (ZMod p))) (Cube.map val a)) ∧
+    (okC ok (Cube.mulBase (mk (BOps.ofImpl I).toFOps) a c) ∧
+      Cube.map val (Cube.mulBase (mk (BOps.ofImpl I).toFOps) a c) =
+        Cube.mulBase (mk (ringOps (ZMod p))) (Cube.map val a) (val c)) ∧
+    (okC ok (Cube.conjugate (mk (BOps.ofImpl I).toFOps) a) ∧
+      Cube.map val (Cube.conjugate (mk (BOps.ofImpl I).toFOps) a) =
+        Cube.conjugate (mk (ringOps (ZMod p))) (Cube.map val a)) ∧
+    (okC ok (Cube.add (BOps.ofImpl I) a b) ∧
+      Cube.map val (Cube.add (BOps.ofImpl I) a b) = Cube.add (fieldBOps p) (Cube.map val a) (Cube.map val b)) ∧
+    (okC ok (Cube.sub (BOps.ofImpl I) a b) ∧
+      Cube.map val (Cube.sub (BOps.ofImpl I) a b) = Cube.sub (fieldBOps p) (Cube.map val a) (Cube.map val b)) ∧
+    (okC ok (Cube.neg (BOps.ofImpl I) a) ∧
+      Cube.map val (Cube.neg (BOps.ofImpl I) a) = Cube.neg (fieldBOps p) (Cube.map val a)) ∧
+    (okC ok (Cube.double (BOps.ofImpl I) a) ∧
+      Cube.map val (Cube.double (BOps.ofImpl I) a) = Cube.double (fieldBOps p) (Cube.map val a)) := by
+  have HR := subOps_raw_ops H
+  have HF := subOps_field_ops H
+  have XR : Ext3Hom (mk (subOps H).toFOps) (mk (BOps.ofImpl I).toFOps) Subtype.val := hmk HR
+  have XF : Ext3Hom (mk (subOps H).toFOps) (mk (ringOps (ZMod p))) (fun a : {x : ℕ // ok x} => val a.1) :=
+    hmk HF
+  refine ⟨?_, ?_, ?_, ?_, ?_, ?_, ?_, ?_⟩
+  · exact cube_lift1 (opS := fun x => Cube.mul (mk (subOps H).toFOps) x (liftC b hb))
+      (opR := fun x => Cube.mul _ x b) (opF := fun x => Cube.mul _ x (Cube.map val b))
+      (fun x => Cube.map_mul XR x _) (fun x => Cube.map_mul XF x _) a ha
+  · exact cube_lift1 (fun x => Cube.map_square XR x) (fun x => Cube.map_square XF x) a ha
+  · exact cube_lift1 (opS := fun x => Cube.mulBase (mk (subOps H).toFOps) x ⟨c, hc⟩)
+      (opR := fun x => Cube.mulBase _ x c) (opF := fun x => Cube.mulBase _ x (val c))
+      (fun x => Cube.map_mulBase XR x _) (fun x => Cube.map_mulBase XF x _) a ha
+  · exact cube_lift1 (fun x => Cube.map_conjugate XR x) (fun x => Cube.map_conjugate XF x) a ha
+  · exact cube_lift1 (opS := fun x => Cube.add (subOps H) x (liftC b hb))
+      (opR := fun x => Cube.add _ x b) (opF := fun x => Cube.add _ x (Cube.map val b))
+      (fun x => Cube.map_add HR x _) (fun x => Cube.map_add HF x _) a ha
+  · exact cube_lift1 (opS := fun x => Cube.sub (subOps H) x (liftC b hb))
+      (opR := fun x => Cube.sub _ x b) (opF := fun x => Cube.sub _ x (Cube.map val b))
+      (fun x => Cube.map_sub HR x _) (fun x => Cube.map_sub HF x _) a ha
+  · exact cube_lift1 (fun x => Cube.map_neg HR x) (fun x => Cube.map_neg HF x) a ha
+  · exact cube_lift1 (fun x => Cube.map_double HR x) (fun x => Cube.map_double HF x) a ha
 
 theorem cube_raw_refines (H : Implements I p ok val) (mk : ∀ {F : Type}, Gen.FOps F → Ext3 F)
     (hmk : ∀ {F G : Type} {O : Gen.FOps F} {O' : Gen.FOps G} {h : F → G}, FHom O O' h → Ext3Hom (mk O) (mk O') h)
@@ -758,29 +830,9 @@ theorem cube_raw_refines (H : Implements I p ok val) (mk : ∀ {F : Type}, Gen.F
     ((∀ y, Cube.inv (BOps.ofImpl I) (mk (BOps.ofImpl I).toFOps) a = .ok y → okC ok y) ∧
       Res.map (Cube.map val) (Cube.inv (BOps.ofImpl I) (mk (BOps.ofImpl I).toFOps) a) =
         Cube.inv (fieldBOps p) (mk (ringOps (ZMod p))) (Cube.map val a)) := by
-  have HR := subOps_raw H
-  have HF := subOps_field H
-  have XR : Ext3Hom (mk (subOps H).toFOps) (mk (BOps.ofImpl I).toFOps) Subtype.val := hmk HR.ops
-  have XF : Ext3Hom (mk (subOps H).toFOps) (mk (ringOps (ZMod p))) (fun a : {x : ℕ // ok x} => val a.1) :=
-    hmk HF.ops
-  refine ⟨?_, ?_, ?_, ?_, ?_, ?_, ?_, ?_, ?_⟩
-  · exact cube_lift1 (opS := fun x => Cube.mul (mk (subOps H).toFOps) x (liftC b hb))
-      (opR := fun x => Cube.mul _ x b) (opF := fun x => Cube.mul _ x (Cube.map val b))
-      (fun x => Cube.map_mul XR x _) (fun x => Cube.map_mul XF x _) a ha
-  · exact cube_lift1 (fun x => Cube.map_square XR x) (fun x => Cube.map_square XF x) a ha
-  · exact cube_lift1 (opS := fun x => Cube.mulBase (mk (subOps H).toFOps) x ⟨c, hc⟩)
-      (opR := fun x => Cube.mulBase _ x c) (opF := fun x => Cube.mulBase _ x (val c))
-      (fun x => Cube.map_mulBase XR x _) (fun x => Cube.map_mulBase XF x _) a ha
-  · exact cube_lift1 (fun x => Cube.map_conjugate XR x) (fun x => Cube.map_conjugate XF x) a ha
-  · exact cube_lift1 (opS := fun x => Cube.add (subOps H) x (liftC b hb))
-      (opR := fun x => Cube.add _ x b) (opF := fun x => Cube.add _ x (Cube.map val b))
-      (fun x => Cube.map_add HR x _) (fun x => Cube.map_add HF x _) a ha
-  · exact cube_lift1 (opS := fun x => Cube.sub (subOps H) x (liftC b hb))
-      (opR := fun x => Cube.sub _ x b) (opF := fun x => Cube.sub _ x (Cube.map val b))
-      (fun x => Cube.map_sub HR x _) (fun x => Cube.map_sub HF x _) a ha
-  · exact cube_lift1 (fun x => Cube.map_neg HR x) (fun x => Cube.map_neg HF x) a ha
-  · exact cube_lift1 (fun x => Cube.map_double HR x) (fun x => Cube.map_double HF x) a ha
-  · exact cube_lift_inv H XR XF a ha
+  obtain ⟨h1, h2, h3, h4, h5, h6, h7, h8⟩ := cube_raw_arith H.toImplementsArith mk hmk a b c ha hb hc
+  exact ⟨h1, h2, h3, h4, h5, h6, h7, h8,
+    cube_lift_inv H (hmk (subOps_raw_ops H.toImplementsArith)) (hmk (subOps_field_ops H.toImplementsArith)) a ha⟩
 
 example {F G : Type} {O : Gen.FOps F} {O' : Gen.FOps G} {h : F → G} (H : FHom O O' h) :
     Ext3Hom (Ext3.f62 O) (Ext3.f62 O') h := f62_ext3_hom H
@@ -802,7 +854,7 @@ theorem quad_raw_inverse (H : Implements I p ok val) (mk : ∀ {F : Type}, Gen.F
       (Quad.map val a = ⟨0, 0⟩ → Quad.map val y = ⟨0, 0⟩) ∧
       (Quad.map val a ≠ ⟨0, 0⟩ →
         Quad.mul (mk (ringOps (ZMod p))) (Quad.map val a) (Quad.map val y) = Quad.one (fieldBOps p)) := by
-  obtain ⟨hok, hmap⟩ := (quad_raw_refines H mk hmk a a (I.new 0) ha ha (H.new 0).1 |>.2.2.2.2.2.2.2.2)
+  obtain ⟨hok, hmap⟩ := (quad_raw_refines H mk hmk a a (I.new 0) ha ha (H.new 0 (Nat.two_pow_pos _)).1 |>.2.2.2.2.2.2.2.2)
   have hinv := quad_inverse hspec hs hφ (Quad.map val a)
   by_cases hz : Quad.map val a = ⟨0, 0⟩
   · rw [hinv.1 hz] at hmap
@@ -822,7 +874,7 @@ theorem cube_raw_inverse (H : Implements I p ok val) (mk : ∀ {F : Type}, Gen.F
       (Cube.map val a = ⟨0, 0, 0⟩ → Cube.map val y = ⟨0, 0, 0⟩) ∧
       (Cube.map val a ≠ ⟨0, 0, 0⟩ →
         Cube.mul (mk (ringOps (ZMod p))) (Cube.map val a) (Cube.map val y) = Cube.one (fieldBOps p)) := by
-  obtain ⟨hok, hmap⟩ := (cube_raw_refines H mk hmk a a (I.new 0) ha ha (H.new 0).1 |>.2.2.2.2.2.2.2.2)
+  obtain ⟨hok, hmap⟩ := (cube_raw_refines H mk hmk a a (I.new 0) ha ha (H.new 0 (Nat.two_pow_pos _)).1 |>.2.2.2.2.2.2.2.2)
   have hinv := cube_inverse hspec HK (Cube.map val a)
   by_cases hz : Cube.map val a = ⟨0, 0, 0⟩
   · rw [hinv.1 hz] at hmap
@@ -846,7 +898,7 @@ def toyImpl : FieldImpl where
   name := "toy7"
   M := 7
   bytes := 1
-  wordBits := 8
+  wordBits := 64
   new := fun n => n % 7
   add := fun a b => (a + b) % 7
   sub := fun a b => (a + (7 - b % 7)) % 7
@@ -868,7 +920,8 @@ example : Implements toyImpl 7 (· < 7) (fun n => (n : ZMod 7)) where
   mul := by intro a b ha hb; revert b; revert a; decide
   neg := by intro a ha; revert a; decide
   double := by intro a ha; revert a; decide
-  new := fun n => ⟨Nat.mod_lt _ (by decide), ZMod.natCast_mod n 7⟩
+  bits := Nat.le_refl _
+  new := fun n _ => ⟨Nat.mod_lt _ (by decide), ZMod.natCast_mod n 7⟩
   eq := by intro a b ha hb; revert b; revert a; decide
   inv := by
     intro a ha
